@@ -16,7 +16,7 @@ import sys
 import time
 import traceback
 
-from .harness import ERROR, PROVED, REFUTED, UNDECIDED, Result, source_hash
+from .harness import ASSUMED, ERROR, PROVED, REFUTED, UNDECIDED, Result, source_hash
 
 ROOT = os.path.dirname(os.path.dirname(os.path.abspath(__file__)))
 
@@ -160,6 +160,8 @@ def main(argv=None):
 
     known, fixed = load_known(prop)
     violations, undecided, errors, known_hits = [], [], [], []
+    assumed = [r for r in results if r["status"] == ASSUMED]
+    results = [r for r in results if r["status"] != ASSUMED]
     for r in results:
         if r["status"] == REFUTED:
             e = match_known(known, r)
@@ -221,11 +223,13 @@ def main(argv=None):
     if os.environ.get("VERIF_VERBOSE"):
         for m in sorted(metas.values(), key=lambda m: -m.get("seconds", 0))[:12]:
             print(f"   slow: {m['id']} {m.get('seconds')}s instr={m.get('n_instr')}")
+    if assumed:
+        print(f"note: {len(assumed)} path(s) carry divisor-nonzero assumptions that were not discharged (listed in the evidence file)")
     print(f"{prop} [{tier}] obligations={n_ob} discharged={n_proved} known-findings={len(seen_known)} "
           f"violations={len(violations)} undecided={len(undecided)} errors={len(errors)} canaries-refuted={n_canary - len(canary_bad)}/{n_canary} "
           f"wall={wall:.1f}s")
     if not a.no_evidence and not a.filter:
-        write_evidence(mod, prop, tier, seed, results, metas, known_hits, violations, undecided, errors, canary_results, wall)
+        write_evidence(mod, prop, tier, seed, results, metas, known_hits, violations, undecided, errors, canary_results, wall, assumed)
     return rc
 
 
@@ -233,7 +237,7 @@ def _slug(s):
     return "".join(ch if ch.isalnum() or ch in "._-" else "_" for ch in s)[:80]
 
 
-def write_evidence(mod, prop, tier, seed, results, metas, known_hits, violations, undecided, errors, canary_results, wall):
+def write_evidence(mod, prop, tier, seed, results, metas, known_hits, violations, undecided, errors, canary_results, wall, assumed=()):
     level = getattr(mod, "LEVEL", "proof")
     by_backend = {}
     for r in results:
@@ -266,6 +270,7 @@ def write_evidence(mod, prop, tier, seed, results, metas, known_hits, violations
         "known_findings_hit": [{"trace": r["trace"], "ob": r["ob"], "what": e.get("what")} for e, r in known_hits],
         "undecided": [{"trace": r["trace"], "ob": r["ob"], "detail": r["detail"][:200]} for r in undecided],
         "canaries": [{"id": m["id"], "refuted": any(r["status"] == REFUTED for r in rs)} for m, rs in canary_results],
+        "unchecked_definedness_assumptions": [{"trace": r["trace"], "path": r["path"], "detail": r["detail"][:400]} for r in assumed],
         "samples": samples,
         "explanation": getattr(mod, "EXPLANATION", ""),
         "bounded_parts": list(getattr(mod, "BOUNDED", [])),
